@@ -74,7 +74,7 @@ Record st := {
   sels : list (N * ast);            (* selectorsById *)
   by_sel : rel;                     (* labelIdsBySelId : selector -> items *)
   by_item : rel;                    (* selIdsByLabelId : item -> selectors *)
-  log : list ev;                    (* every callback so far, newest first *)
+  log : list ev;                    (* every callback so far, oldest first *)
   tick : nat                        (* number of map iterations performed so far *)
 }.
 
@@ -91,12 +91,12 @@ Definition store_match (s i : N) (x : st) : st :=
   if rel_mem s i (by_sel x) then x
   else {| items := items x; parents := parents x; sels := sels x;
           by_sel := rel_add s i (by_sel x); by_item := rel_add i s (by_item x);
-          log := Start s i :: log x; tick := tick x |}.
+          log := log x ++ [Start s i]; tick := tick x |}.
 Definition delete_match (s i : N) (x : st) : st :=
   if rel_mem s i (by_sel x)
   then {| items := items x; parents := parents x; sels := sels x;
           by_sel := rel_del s i (by_sel x); by_item := rel_del i s (by_item x);
-          log := Stop s i :: log x; tick := tick x |}
+          log := log x ++ [Stop s i]; tick := tick x |}
   else x.
 
 (* itemData.GetHandle: own labels, then each parent's labels in order *)
@@ -322,8 +322,7 @@ Record obs := { o_events : list ev;           (* callbacks of this op in the ord
                 o_by_sel : list (N * N);      (* (selector, item) pairs, sorted *)
                 o_by_item : list (N * N) }.   (* (item, selector) pairs, sorted *)
 
-Definition new_events (before after : st) : list ev :=
-  rev (firstn (length (log after) - length (log before)) (log after)).
+Definition new_events (before after : st) : list ev := skipn (length (log before)) (log after).
 
 Definition observe (before after : st) : obs :=
   {| o_events := new_events before after;
